@@ -417,7 +417,14 @@ def archive_kind(tool):
     fn = C01.ape_cli if tool == "ape" else C02.rpe_cli
 
     def inner(run, case, rng, work):
-        rec = fn(C01.NullRun(run.tier), case, rng, work)
+        sub = C01.NullRun(run.tier)
+        rec = fn(sub, case, rng, work)
+        # the stored trajectories are the processed input poses at their own stamps (judged by the
+        # pipeline comparison of the owning check): a result that fails there does not refer to the
+        # poses its values belong to
+        proc = [f for f in sub.failed if str(f[0]).endswith((":processing-differs", ":wrong-pose-selection"))]
+        run.check(not proc, "stored trajectories are the documented processing of the input files", case,
+                  "evo_%s result: %s" % (tool, proc[0][1] if proc else ""), key="archive:stored-trajectories-differ-from-inputs")
         run.seen(case, core.digest(case["rs"], tool), nontrivial=rec is not None,
                  cls=["archive:" + tool + (" judged" if rec else " (refused/ambiguous)")],
                  sample={"argv": rec["argv"]} if rec else None)
